@@ -144,6 +144,7 @@ class ManualExecutor(Executor):
         f = it.future
         if it.state != "queued":
             return False
+        it.state = "claimed"        # atomically (no scheduling point since the test)
         if not f.set_running_or_notify_cancel():
             it.state = "cancelled"
             return False
